@@ -433,3 +433,106 @@ theorem reject_sound (m : OLTS σ ε ο) (hm : m.Complete) (cap fuel : Nat) (h :
   rw [this] at hfail; cases hfail
 
 end UtilModel
+
+/-! ## reduced candidate lists
+
+Some models try only a *reduced* list of internal events (a partial-order reduction that keeps the
+state sets small). Such a model is not `Complete`, but the driver's run on it is literally the run on
+the model *restricted* to its candidates (`accRunH_restrict`), which is `Complete`
+(`restrict_complete`); a package then shows that every run of the full model has a run of the
+restricted model with the same observable projection and obtains `reject_sound_*` for the full model. -/
+namespace UtilModel
+
+section Restrict
+variable {σ ε ο : Type} [DecidableEq ε]
+
+/-- the model restricted to the internal events its candidate list tries (observable events
+unchanged) -/
+def OLTS.restrict (m : OLTS σ ε ο) : OLTS σ ε ο :=
+  { m with step := fun s e => if (m.obs e).isNone = true ∧ e ∉ m.cands s then none else m.step s e }
+
+omit [DecidableEq ε] in
+theorem filterMap_congr_mem {α β : Type} (f g : α → Option β) (l : List α) (h : ∀ x ∈ l, f x = g x) :
+    l.filterMap f = l.filterMap g := by
+  induction l with
+  | nil => rfl
+  | cons x xs ih =>
+    simp only [List.filterMap_cons, h x (by simp)]
+    rw [ih (fun y hy => h y (by simp [hy]))]
+
+theorem OLTS.restrict_tauSucc (m : OLTS σ ε ο) (s : σ) : m.restrict.tauSucc s = m.tauSucc s := by
+  simp only [OLTS.tauSucc, OLTS.restrict]
+  apply filterMap_congr_mem
+  intro e he
+  simp [he]
+
+theorem OLTS.restrict_obsStep (m : OLTS σ ε ο) [DecidableEq ο] (s : σ) (o : ο) (e : ε) :
+    (if m.restrict.obs e = some o then m.restrict.step s e else none) =
+      (if m.obs e = some o then m.step s e else none) := by
+  simp only [OLTS.restrict]
+  by_cases h : m.obs e = some o <;> simp [h]
+
+/-- every candidate-respecting step of `m` is a step of `m.restrict`; conversely a step of
+`m.restrict` is a step of `m` -/
+theorem OLTS.restrict_step_of (m : OLTS σ ε ο) (s s' : σ) (e : ε) (hs : m.step s e = some s')
+    (hc : m.obs e = none → e ∈ m.cands s) : m.restrict.step s e = some s' := by
+  simp only [OLTS.restrict]
+  rw [if_neg]
+  · exact hs
+  · rintro ⟨h1, h2⟩
+    exact h2 (hc (Option.isNone_iff_eq_none.mp h1))
+
+/-- the restricted model is complete as soon as `evsOf` is -/
+theorem OLTS.restrict_complete (m : OLTS σ ε ο)
+    (hev : ∀ s e s' o, m.step s e = some s' → m.obs e = some o → e ∈ m.evsOf s o) :
+    m.restrict.Complete := by
+  constructor
+  · intro s e s' hs ho
+    simp only [OLTS.restrict] at hs ho
+    split at hs
+    · cases hs
+    · rename_i hn
+      apply Classical.byContradiction
+      intro hne
+      exact hn ⟨by simp [ho], hne⟩
+  · intro s e s' o hs ho
+    simp only [OLTS.restrict] at hs ho
+    split at hs
+    · cases hs
+    · exact hev s e s' o hs ho
+
+variable [BEq σ] [Hashable σ] [DecidableEq ο]
+
+omit [DecidableEq ο] in
+theorem OLTS.closureH_restrict (m : OLTS σ ε ο) (cap n : Nat) (idx : Std.HashSet σ) (seen fr : List σ) :
+    m.restrict.closureH cap n idx seen fr = m.closureH cap n idx seen fr := by
+  induction n generalizing idx seen fr with
+  | zero => simp [OLTS.closureH]
+  | succ n ih =>
+    cases fr with
+    | nil => simp [OLTS.closureH]
+    | cons f fs =>
+      simp only [OLTS.closureH]
+      have : (f :: fs).flatMap m.restrict.tauSucc = (f :: fs).flatMap m.tauSucc := by
+        congr 1; funext s; exact m.restrict_tauSucc s
+      rw [this]
+      split
+      · rfl
+      · exact ih _ _ _
+
+theorem OLTS.accStepH_restrict (m : OLTS σ ε ο) (cap fuel : Nat) (S : List σ) (o : ο) :
+    m.restrict.accStepH cap fuel S o = m.accStepH cap fuel S o := by
+  simp only [OLTS.accStepH, OLTS.closureH_restrict, OLTS.restrict_obsStep]
+  rfl
+
+/-- the driver's run is literally the run of the checker of the restricted model -/
+theorem OLTS.accRunH_restrict (m : OLTS σ ε ο) (cap fuel : Nat) (S : List σ) (h : List ο) (i : Nat)
+    (tr : Bool) (mx : Nat) :
+    m.restrict.accRunH cap fuel S h i tr mx = m.accRunH cap fuel S h i tr mx := by
+  induction h generalizing S i tr mx with
+  | nil => simp [OLTS.accRunH]
+  | cons o os ih => simp only [OLTS.accRunH, OLTS.accStepH_restrict, ih]
+
+end Restrict
+
+end UtilModel
